@@ -91,7 +91,7 @@ class PatternToken(RegexpBaseToken):
 
 # TODO добавить условие для локализации
 class LiteralToken(RegexpBaseToken):
-    regexp = r'\"(.*?)\"|(\d+)((\.)(\d+))?(e(-?\d+))?|(TRUE(\(\))?)|(FALSE(\(\))?)'
+    regexp = r'\"(.*?)\"|(\d+)((\.)(\d+))?(e(-?\d+))?|(TRUE(\s*\(\s*\))?)|(FALSE(\s*\(\s*\))?)'
     value_range = [0, -1]
 
     def __init__(self, *args, **kwargs):
